@@ -2622,8 +2622,8 @@ static void quat_slerp(const SlerpCase &c, pbt::Ctx &ctx)
   //   the weights depend on W only through sin(tW)/sin(W), whose W-derivative is t(1-t^2)W/3 + O(W^3) -- in total every
   //   component stays within ~8 eps;   K ~ 8: 64 eps
   // fallback (|d| > 0.9995, W < 0.0316): normalize(lerp) deviates from slerp by at most 0.0161 W^3 <= 5.1e-7 (maximum of
-  //   t(2t-1)(t-1)/6 is sqrt3/108) plus the rsqrt floor;  tol = 4 * 5.1e-7 + floor + 16 eps   (DESIGN: 1e-5 for float)
-  const L tolReg = 64 * eps, tolFb = 2.04e-6L + fl + 16 * eps;
+  //   t(2t-1)(t-1)/6 is sqrt3/108) plus the rsqrt floor;  tol = 6 * 5.1e-7 + floor + 16 eps   (DESIGN: ~1e-5 for float)
+  const L tolReg = 64 * eps, tolFb = 3.06e-6L + fl + 16 * eps;
   const L tol = (fallback || nearThr) ? tolFb : tolReg;
   RQ want = slerp_ref(t, a, b, flip);
   if (ambiguousSign) {
